@@ -63,13 +63,21 @@ _CHECK = None
 
 
 def _worker(case):
-    try:
-        r = _CHECK.run_case(case)
-        if r is None:
-            r = {"outcome": "none"}
-        return case, r
-    except Exception:
-        return case, {"outcome": "harness-exception", "machinery": traceback.format_exc()}
+    # an exception inside the harness (not a verdict) is retried once: on an overloaded machine a dump or trace file can be cut short
+    # by a timeout; only an exception that repeats is reported as a machinery error, together with the case
+    for attempt in (0, 1):
+        try:
+            r = _CHECK.run_case(case)
+            if r is None:
+                r = {"outcome": "none"}
+            if attempt:
+                r.setdefault("tags", [])
+                r["tags"] = list(r["tags"]) + ["harness-retry"]
+            return case, r
+        except Exception:
+            tb = traceback.format_exc()
+            time.sleep(0.5)
+    return case, {"outcome": "harness-exception", "machinery": f"case {case!r}\n{tb}"}
 
 
 def _batch_worker(cases):
